@@ -375,10 +375,16 @@ impl SwarmDriver {
             NetworkSwarmCmd::GetNetworkRecord { key, sender, cfg } => {
                 cmd_string = "GetNetworkRecord";
 
-                for (pending_query, (inflight_record_query_key, senders, _, _)) in
+                for (pending_query, (inflight_record_query_key, senders, _, inflight_cfg)) in
                     self.pending_get_record.iter_mut()
                 {
-                    if *inflight_record_query_key == key {
+                    // a caller only shares a query that runs under its own terms: the outcome of
+                    // the query is decided by the quorum and the expected record it was started with
+                    if *inflight_record_query_key == key
+                        && inflight_cfg.get_quorum == cfg.get_quorum
+                        && inflight_cfg.target_record == cfg.target_record
+                        && inflight_cfg.is_register == cfg.is_register
+                    {
                         debug!(
                             "GetNetworkRecord for {:?} is already in progress. Adding sender to {pending_query:?}",
                             PrettyPrintRecordKey::from(&key)
